@@ -17,9 +17,15 @@ structure SaveOK (p : Params) (σ : SpecState) (new : List Entry) : Prop where
   seq : ∀ e0 rest, new = e0 :: rest → Seq e0.index new
   range : ∀ e0 rest, new = e0 :: rest → σ.ents ≠ [] → σ.first ≤ e0.index ∧ e0.index ≤ σ.first + σ.ents.length
 
-/-- preconditions of an operation (only `Save` has one) -/
-def OpOK (p : Params) (σ : SpecState) : Op → Prop
+/-- preconditions of an operation (only `Save` has one): what raft guarantees -/
+def OpOKBase (p : Params) (σ : SpecState) : Op → Prop
   | .save _ ents _ => SaveOK p σ ents
+  | _ => True
+
+/-- … and, excluding the known finding `snapshot_install_keeps_old_entries`: the snapshot of a
+`Save` does not lie beyond the log -/
+def OpOK (p : Params) (σ : SpecState) : Op → Prop
+  | .save _ ents sn => SaveOK p σ ents ∧ σ.noInstall ents sn
   | _ => True
 
 variable {p : Params} {s : State} {a : Nat} {ess : List (List Entry)} {ec : List Entry}
@@ -88,7 +94,7 @@ theorem absOf_save_meta (a : Nat) (ess : List (List Entry)) (ec : List Entry) (m
 theorem LogRep.save_ok (hp : p.WF) (r : LogRep p s a ess ec) (hs : Option HardState) (new : List Entry) (sn : Option Snapshot)
     (hok : SaveOK p (absOf a ess ec s.mt) new) :
     ∃ a' ess' ec', LogRep p (save p s hs new sn) a' ess' ec' ∧
-      absOf a' ess' ec' (save p s hs new sn).mt = (absOf a ess ec s.mt).save hs new sn := by
+      absOf a' ess' ec' (save p s hs new sn).mt = (absOf a ess ec s.mt).saveKeep hs new sn := by
   have hmt : (save p s hs new sn).mt = storeSnapshot (storeHardState s.mt hs) sn := by
     simp only [save, addEntries_mt]
   have hmok := storeSnapshot_ok _ sn (storeHardState_ok s.mt hs r.mtOK)
@@ -108,7 +114,7 @@ theorem LogRep.save_ok (hp : p.WF) (r : LogRep p s a ess ec) (hs : Option HardSt
           intro h
           have := r'.all_nil_iff.mpr h
           rw [hall] at this; simp at this
-        simp only [SpecState.save]
+        simp only [SpecState.saveKeep]
         congr 2
         simp only [absOf, SpecState.append, hnil, List.isEmpty_nil, if_true, hec', if_false, hall]
     · have hrange := hok.range e0 rest rfl hnil
@@ -123,7 +129,7 @@ theorem LogRep.save_ok (hp : p.WF) (r : LogRep p s a ess ec) (hs : Option HardSt
           intro h
           have := r'.all_nil_iff.mpr h
           rw [hall] at this; simp at this
-        simp only [SpecState.save]
+        simp only [SpecState.saveKeep]
         congr 2
         have hemp : (ess.flatten ++ ec).isEmpty = false := by simp [hnil]
         simp only [absOf, SpecState.append, hemp, Bool.false_eq_true, if_false, hec, hec', hall]
